@@ -664,3 +664,38 @@ Example ex_wmsc_advertised :
   wmsc_get_map ex_ll_unaligned (wmsc_client_rect (mkLayer ex_ll_unaligned SrsOther false false false 1 1 (0, 0, 800, 400) 10) 50 3 3) 4 2
   = WLoaded (3, 3, 1).
 Proof. split; vm_compute; reflexivity. Qed.
+
+(* ---- the whole KML document: every GroundOverlay (href, LatLonBox) names a tile that is served and covers the box *)
+Lemma kml_document_links_exact_l s srv x y z b subs oh r :
+  kml_document s x y z = KmlDoc b subs -> In (oh, r) subs ->
+  exists hx hy hz, oh = Some (hx, hy, hz) /\
+    exists c, served s srv (AKml hz hx hy) = Some c /\ tile_bbox_c (sg s) c = r.
+Proof.
+  unfold kml_document.
+  destruct (layer_internal s OSW false false x y z) as [[[ix iy] iz]|]; [|discriminate].
+  destruct (internal_tile_coord s x y (z + 1) false false) as [[[nx0 ny0] lvl]|] eqn:En.
+  2:{ intros H. inversion H; subst. intros []. }
+  apply internal_some in En. destruct En as (Hz & Hc & Hv & _). assert (El : lvl = req_level s false false (z + 1)) by congruence. clear Hc. subst lvl.
+  set (lvl := req_level s false false (z + 1)) in *.
+  assert (Hev : skip_odd s = false \/ lvl mod 2 = 0).
+  { unfold lvl, req_level, public_level. cbn [andb]. destruct (skip_odd s); [right; lia|left; reflexivity]. }
+  destruct (affected_level_tiles (sg s) (limit_bbox (sg s) (tile_bbox (sg s) ix iy iz)) lvl) as [ab n m tiles|] eqn:Ea; [|discriminate].
+  destruct (limit_bbox (sg s) (tile_bbox (sg s) ix iy iz)) as [[[b0 b1] b2] b3] eqn:Eb.
+  intros H. inversion H; subst b subs. clear H. intros Hi.
+  apply in_flat_map in Hi. destruct Hi as (oc & Hoc & Hin).
+  destruct oc as [[[cx cy] cz]|]; [|destruct Hin].
+  destruct (tile_bbox (sg s) cx cy cz) as [[[s0 s1] s2] s3] eqn:Es.
+  destruct ((0 <? (s0 - b0) * 10000000 + s_scale s) && (0 <? (s1 - b1) * 10000000 + s_scale s)); [|destruct Hin].
+  destruct Hin as [Hin|[]]. injection Hin as Hoh Hr. subst r.
+  pose proof (affected_tiles_valid (sg s) _ lvl ab n m tiles Hv Ea) as [H1 _].
+  destruct (H1 _ Hoc) as (tx & ty & _ & _ & Hl). symmetry in Hl.
+  pose proof (limit_tile_some _ _ _ _ _ Hl) as (Ht & _). inversion Ht; subst cx cy cz. clear Ht.
+  assert (Hoh' : kml_href_coord s (tx, ty, lvl) = oh) by exact Hoh. clear Hoh.
+  destruct oh as [[[hx hy] hz]|].
+  - exists hx, hy, hz. split; [reflexivity|].
+    pose proof (kml_href_roundtrip_l s srv tx ty lvl (hx, hy, hz) Hev Hl Hoh') as Hs. cbv beta iota in Hs.
+    exists (tx, ty, lvl). split; [exact Hs|]. cbn [tile_bbox_c]. exact Es.
+  - exfalso. unfold kml_href_coord, external_tile_coord in Hoh'.
+    apply limit_tile_some in Hl. destruct Hl as (_ & Hvl & _). unfold valid_level in Hvl.
+    destruct (ul (sg s)); unfold flip_tile_coord in Hoh'; replace (lvl <? 0) with false in Hoh' by lia; discriminate.
+Qed.
